@@ -3245,7 +3245,15 @@ func (c *pipelineConnClient) reader(conn net.Conn, stopCh <-chan struct{}, chs *
 			return err
 		}
 
+		// The server is going to close the connection after this response,
+		// so it must not be used for further requests.
+		closeConn := w.resp.ConnectionClose()
+
 		w.done <- struct{}{}
+
+		if closeConn {
+			return nil
+		}
 	}
 }
 
